@@ -7,6 +7,7 @@ from __future__ import annotations
 
 import os
 
+import numpy as np
 from hypothesis import strategies as st
 from hypothesis.stateful import invariant, precondition, rule
 
@@ -182,7 +183,8 @@ class StoreMachine(LoggedMachine):
 
     def _check_item(self, i, stage):
         try:
-            t = self.store[i]
+            # positions computed with NumPy (argsort, arange, random draws) are integers too
+            t = self.store[np.int64(i) if i % 2 else i]
         except core.PASS_THROUGH:
             raise
         except Exception as e:  # noqa: BLE001
